@@ -1,5 +1,6 @@
 from __future__ import annotations
 from functools import lru_cache
+import math
 import numpy as np
 from numpy.typing import NDArray
 from scipy.fft import next_fast_len
@@ -100,8 +101,11 @@ def subpixel_ncc(
         backend=backend,
         constant_values=img0.mean(),
     )
+    # The coarse (integer) peak is searched up to ceil(max_shifts): a displacement in the
+    # fractional rim of the range is nearest to the integer just outside of it. The
+    # sub-pixel refinement restricts the result to max_shifts.
     pad_width_eff = tuple(
-        (s - int(m) * 2 - 1) // 2 for m, s in zip(max_shifts, response.shape)
+        (s - math.ceil(m) * 2 - 1) // 2 for m, s in zip(max_shifts, response.shape)
     )
     sl_res = tuple(slice(w, -w, None) for w in pad_width_eff)
     response_center = response[sl_res]
@@ -122,8 +126,11 @@ def subpixel_zncc(
     if isinstance(max_shifts, (int, float)):
         max_shifts = (max_shifts,) * img0.ndim
     response = ncc_landscape(img0, img1, max_shifts, backend=backend)
+    # The coarse (integer) peak is searched up to ceil(max_shifts): a displacement in the
+    # fractional rim of the range is nearest to the integer just outside of it. The
+    # sub-pixel refinement restricts the result to max_shifts.
     pad_width_eff = tuple(
-        (s - int(m) * 2 - 1) // 2 for m, s in zip(max_shifts, response.shape)
+        (s - math.ceil(m) * 2 - 1) // 2 for m, s in zip(max_shifts, response.shape)
     )
     sl_res = tuple(slice(w, -w, None) for w in pad_width_eff)
     response_center = response[sl_res]
